@@ -92,6 +92,7 @@ type Run struct {
 	ReplayOnly    bool
 	sampleEveryN  int
 	firstOps      []interface{}
+	probe         bool // a scratch run used while shrinking a failing script: records violations only
 }
 
 func NewRun(prop, tier string, seed uint64, outDir string) *Run {
@@ -136,6 +137,9 @@ func noteStep(engine, soFar, next string) {
 // Begin notes the case about to be driven, so that a crash of the whole process in a goroutine of the code under
 // test (which no recover can catch) can still be reported together with the input that provoked it.
 func (r *Run) Begin(sig, clause string, c interface{}) {
+	if r.probe {
+		return
+	}
 	b, err := json.Marshal(map[string]interface{}{"signature": sig, "oracle_clause": clause, "case": c})
 	if err == nil {
 		_ = os.WriteFile(filepath.Join(r.OutDir, "current.json"), b, 0o644)
@@ -145,6 +149,9 @@ func (r *Run) Begin(sig, clause string, c interface{}) {
 // Op records one model operation line together with the implementation's
 // canonical answer. The Lean driver must print exactly `answer` for `op`.
 func (r *Run) Op(op, answer string) {
+	if r.probe {
+		return
+	}
 	if strings.ContainsAny(op, "\n\r") || strings.ContainsAny(answer, "\n\r") {
 		panic("newline in protocol line: " + op + " / " + answer)
 	}
@@ -161,6 +168,9 @@ func (r *Run) Op(op, answer string) {
 // Eval counts one executed case; key identifies it canonically; nontrivial
 // says whether it satisfies the property's non-triviality rule.
 func (r *Run) Eval(key string, nontrivial bool) {
+	if r.probe {
+		return
+	}
 	r.Evaluations++
 	if nontrivial {
 		h := sha256.Sum256([]byte(key))
@@ -234,3 +244,46 @@ func hexOrDash(b []byte) string {
 }
 
 func sprintf(f string, a ...interface{}) string { return fmt.Sprintf(f, a...) }
+
+
+// newProbe: a scratch run that only collects violations (used to shrink a failing script).
+func newProbe(r *Run) *Run {
+	return &Run{Prop: r.Prop, Tier: r.Tier, Seed: r.Seed, OutDir: r.OutDir, Rng: r.Rng.Fork("probe"),
+		nontrivial: map[string]struct{}{}, Dist: map[string]int{}, probe: true}
+}
+
+// shrinkOps removes operations one at a time as long as `fails` still holds; greedy, to a fixed point.
+func shrinkOps(ops []string, fails func([]string) bool) []string {
+	cur := append([]string{}, ops...)
+	for changed, rounds := true, 0; changed && rounds < 6; rounds++ {
+		changed = false
+		for i := 0; i < len(cur); i++ {
+			cand := append(append([]string{}, cur[:i]...), cur[i+1:]...)
+			if fails(cand) {
+				cur, changed = cand, true
+				i--
+			}
+		}
+	}
+	return cur
+}
+
+// attachMinimal records the shrunk form of a failing script on the violation it belongs to.
+func (r *Run) attachMinimal(sig string, minimal interface{}) {
+	for i := range r.Violations {
+		if r.Violations[i].Signature == sig {
+			if m, ok := r.Violations[i].Case.(map[string]interface{}); ok {
+				m["minimal"] = minimal
+			}
+		}
+	}
+}
+
+func hasSig(vs []Violation, sig string) bool {
+	for _, v := range vs {
+		if v.Signature == sig {
+			return true
+		}
+	}
+	return false
+}
